@@ -4,7 +4,9 @@ package all
 import (
 	_ "verif/props/c01"
 	_ "verif/props/c02"
+	_ "verif/props/c03"
 	_ "verif/props/c04"
+	_ "verif/props/c06"
 	_ "verif/props/c08"
 	_ "verif/props/c09"
 )
